@@ -3,6 +3,8 @@ package main
 // Verification unit: SMT declarations, facts, obligations, sort registry.
 
 import (
+	"os"
+	"strconv"
 	"fmt"
 	"go/token"
 	"go/types"
@@ -68,8 +70,15 @@ type Unit struct {
 	envAssumes []string
 }
 
+// GOVC_NAME_SEED shifts the numbering of fresh SMT symbols: solvers are sensitive to symbol
+// names, so an obligation that only discharges for one numbering is unstable (stress test).
+func nameSeed() int {
+	n, _ := strconv.Atoi(os.Getenv("GOVC_NAME_SEED"))
+	return n * 1009
+}
+
 func newUnit(eng *Engine, name string) *Unit {
-	return &Unit{eng: eng, Name: name, sortSeen: map[string]bool{}, heapKeys: map[string]string{}, strLits: map[string]string{}, fieldKey: map[*types.Var]string{}, structs: map[string]*structInfo{}}
+	return &Unit{nfresh: nameSeed(), eng: eng, Name: name, sortSeen: map[string]bool{}, heapKeys: map[string]string{}, strLits: map[string]string{}, fieldKey: map[*types.Var]string{}, structs: map[string]*structInfo{}}
 }
 
 func (u *Unit) fresh(base, sort string) string {
